@@ -500,6 +500,7 @@ Section RoundU.
     set (named := match get_str (st x1) d str_NAME with Some nm => _ | None => _ end) in E.
     assert (Hn : XPost (fun s' => usame d' s1 s' /\ UF s') named).
     { unfold named. destruct (get_str (st x1) d str_NAME) as [nm|]; [|intros _; split; [apply us_refl|exact U1]].
+      cbv zeta. destruct (fresh_ctr _ _ _ _ _ _) as [k|]; [|intro H; discriminate].
       apply (xpost_liftR (fun s' => usame d' s1 s' /\ UF s')).
       - intros _. cbn [st]. split; [apply us_dict_set_name; reflexivity|apply (uf_struct _ _ (se_dict_set _ _ _ _) U1)].
       - intros x3 [Q3 U3]. destruct (get_str (st x3) d' str_IDENT) as [idv|]; [|intros _; split; assumption].
